@@ -93,7 +93,7 @@ func program(self uint32, xs []xfer, yield bool, endTrap bool) []byte {
 	for i, x := range xs {
 		memo := make([]byte, 128)
 		memo[0] = byte(i)
-		memo[1] = byte(self)
+		memo[1] = byte(self % 251)
 		off := len(w)
 		w = append(w, memo...)
 		a.loadImm(7, x.to)
@@ -106,8 +106,12 @@ func program(self uint32, xs []xfer, yield bool, endTrap bool) []byte {
 		off := len(w)
 		y := make([]byte, 32)
 		y[0] = 0xEE
-		y[1] = byte(self)
+		y[1] = byte(self % 251)
 		w = append(w, y...)
+		// the yielded hash carries the remaining gas, so that a service accumulated in two rounds of one
+		// block yields two different hashes
+		a.ecalli(0)
+		a.ins(append([]byte{62, 7}, le(uint64(rw+off+8), 4)...)...)
 		a.loadImm(7, uint32(rw+off))
 		a.ecalli(25)
 	}
@@ -143,6 +147,8 @@ func mkAccount(code []byte, balance uint64) types.ServiceAccount {
 	}
 	return acc
 }
+
+func yTok(x types.OpaqueHash) string { return h.Hex(append(append([]byte{}, x[:2]...), x[8:12]...)) }
 
 func tok(parts ...any) string {
 	s := fmt.Sprint(parts...)
@@ -232,13 +238,17 @@ type scenario struct {
 	kv    types.StateKeyVals
 }
 
-func build(seed uint64, nserv, maxk int) scenario {
+func build(seed uint64, nserv, maxk int, hotYields bool) scenario {
 	rng := h.NewRng(seed)
 	types.SetTinyMode()
 	ids := map[uint32]bool{}
 	var order []uint32
+	big := rng.Chance(1, 2) // realistic 32-bit service indices for half of the rounds
 	for len(order) < nserv {
 		id := uint32(1 + rng.Intn(90))
+		if big && rng.Chance(3, 4) {
+			id = uint32(1<<21 + rng.Intn(1<<31))
+		}
 		if !ids[id] {
 			ids[id] = true
 			order = append(order, id)
@@ -269,6 +279,10 @@ func build(seed uint64, nserv, maxk int) scenario {
 			}
 			d[types.ServiceID(id)] = mkAccount(program(id, xs, rng.Chance(1, 2), rng.Chance(1, 8)), 1_000_000_000)
 		}
+	}
+	if hotYields {
+		// the hot receiver yields, has work of its own and receives transfers: it is accumulated in two rounds
+		d[types.ServiceID(hot)] = mkAccount(program(hot, nil, true, false), 1_000_000_000)
 	}
 	pick := func() types.ServiceID { return types.ServiceID(order[rng.Intn(len(order))]) }
 	ps := types.PartialStateSet{
@@ -307,6 +321,12 @@ func build(seed uint64, nserv, maxk int) scenario {
 			res.ServiceID = pick()
 			res.AccumulateGas = 200_000
 			res.Result = types.WorkExecResult{}
+			wr.Results = append(wr.Results, res)
+		}
+		if hotYields && r == 0 {
+			var res types.WorkResult
+			res.ServiceID = types.ServiceID(hot)
+			res.AccumulateGas = 200_000
 			wr.Results = append(wr.Results, res)
 		}
 		reports = append(reports, wr)
@@ -396,6 +416,10 @@ func gen(rng *h.Rng, tier string, emit func(string)) {
 			runs = 5
 		}
 		emit(fmt.Sprintf("acc %d %d %d %d", rng.U64()>>1, nserv, maxk, runs))
+		if i%2 == 0 {
+			emit(fmt.Sprintf("outer %d %d %d %d", rng.U64()>>1, nserv, maxk, runs+2))
+			st.Inc("outer")
+		}
 		st.Inc(fmt.Sprintf("nserv-%d", nserv))
 		st.Inc(fmt.Sprintf("maxk-%d", maxk))
 	}
@@ -405,9 +429,12 @@ func gen(rng *h.Rng, tier string, emit func(string)) {
 func run(input string) string {
 	f := strings.Fields(input)
 	seed, nserv, maxk, runs := h.U(f[1]), h.I(f[2]), h.I(f[3]), h.I(f[4])
-	sc := build(seed, nserv, maxk)
+	sc := build(seed, nserv, maxk, f[0] == "outer" && seed%3 != 0)
 	cs := blockchain.GetInstance()
 	var sb strings.Builder
+	if f[0] == "outer" {
+		return runOuter(sc, runs)
+	}
 	// ---- ∆1 per service, each on its own deep copy (the oracle D1 of the model)
 	need := map[uint32]bool{}
 	for _, s := range sc.set {
@@ -440,7 +467,7 @@ func run(input string) string {
 		}
 		y := "-"
 		if out.AccumulationOutput != nil {
-			y = h.Hex(out.AccumulationOutput[:4])
+			y = yTok(*out.AccumulationOutput)
 		}
 		o := out.PartialStateSet
 		fmt.Fprintf(&sb, "%d;%d;%s;%s;%s;%d;%s;%d;%d;%s;%s;%s", s, out.GasUsed, y, transfersStr(out.DeferredTransfers),
@@ -477,7 +504,7 @@ func run(input string) string {
 			u = append(u, fmt.Sprintf("%d:%d", x.ServiceID, x.Gas))
 		}
 		for x := range out.AccumulatedServiceOutput {
-			b = append(b, fmt.Sprintf("%d:%s", x.ServiceID, h.Hex(x.Hash[:4])))
+			b = append(b, fmt.Sprintf("%d:%s", x.ServiceID, yTok(x.Hash)))
 		}
 		sort.Slice(b, func(i, j int) bool {
 			var a1, a2 int
@@ -498,6 +525,59 @@ func run(input string) string {
 			tok(fmt.Sprint(o.ValidatorKeys)), queuesStr(o.Authorizers))
 	}
 	return sb.String()
+}
+
+// runOuter drives the whole block-level accumulation (∆+ over several rounds, statistics, θ′) through
+// accumulation.DeferredTransfers on the singleton, several times from the identical prior state.
+// Every run must produce the identical posterior: the expected output repeats the first run.
+func runOuter(sc scenario, runs int) string {
+	cs := blockchain.GetInstance()
+	var sb strings.Builder
+	procs := []int{16, 1, 4, 2, 8, 3, 6}
+	workers := []int{32, 1, 2, 3, 64, 5, 7}
+	oldProcs := runtime.GOMAXPROCS(0)
+	oldWorkers := types.MaxWorkers
+	defer func() { runtime.GOMAXPROCS(oldProcs); types.MaxWorkers = oldWorkers }()
+	for r := 0; r < runs; r++ {
+		runtime.GOMAXPROCS(procs[r%len(procs)])
+		types.MaxWorkers = workers[r%len(workers)]
+		in := cloneInput(sc.input)
+		ps := in.PartialStateSet
+		// every service that has work gets gas through the always-accumulate map as well
+		chi := types.Privileges{Bless: ps.Bless, Assign: ps.Assign, Designate: ps.Designate, CreateAcct: ps.CreateAcct, AlwaysAccum: in.AlwaysAccumulateMap}
+		cs.GetPriorStates().SetDelta(ps.ServiceAccounts)
+		cs.GetPriorStates().SetChi(chi)
+		cs.GetPriorStates().SetIota(ps.ValidatorKeys)
+		cs.GetPriorStates().SetVarphi(ps.Authorizers)
+		cs.GetIntermediateStates().SetAccumulatableWorkReports(in.WorkReports)
+		cs.SetPostStateUnmatchedKeyVals(sc.kv.DeepCopy())
+		out := h.Guard(func() string {
+			oo, err := accumulation.VerifExecuteOuter()
+			if err != nil {
+				return "err"
+			}
+			var us []string
+			for _, x := range oo.ServiceGasUsedList {
+				us = append(us, fmt.Sprintf("%d:%d", x.ServiceID, x.Gas))
+			}
+			post := cs.GetPosteriorStates()
+			var th []string
+			for _, x := range post.GetLastAccOut() {
+				th = append(th, fmt.Sprintf("%d:%s", x.ServiceID, yTok(x.Hash)))
+			}
+			ths := strings.Join(th, ",")
+			if ths == "" {
+				ths = "-"
+			}
+			sp := us
+			sp = append(sp, fmt.Sprintf("n=%d", oo.NumberOfWorkResultsAccumulated))
+			chiP := post.GetChi()
+			return fmt.Sprintf("theta=%s d=%s chi=%d/%s/%d/%d/%s stats=%s kv=%s", ths, accountsStr(post.GetDelta()), chiP.Bless, idsStr(chiP.Assign),
+				chiP.Designate, chiP.CreateAcct, alwaysTok(chiP.AlwaysAccum), tok(strings.Join(sp, ",")), kvStr(cs.GetPostStateUnmatchedKeyValsRef()))
+		})
+		fmt.Fprintf(&sb, "RUN{%s} ", out)
+	}
+	return strings.TrimSpace(sb.String())
 }
 
 func main() {
